@@ -170,15 +170,59 @@ Definition result_bound (T : ity) (X : Z) : Prop :=
   if sgn T then - (thalf T * thalf T) <= X <= thalf T * thalf T
   else - tmod T < X < tmod T * tmod T.
 
+Lemma pfv_wf t v : wf_ity t -> wf_ity (promote_type_for_value t v).
+Proof.
+  intros Ht. unfold promote_type_for_value.
+  ity_cases t Ht; cbv [promote_signed_types promote_unsigned_types first_fit];
+    repeat match goal with |- context [if ?c then _ else _] => destruct c end; reflexivity.
+Qed.
+
+Lemma in_rangeb_sub a b x : wf_ity a -> wf_ity b -> tmin b <= tmin a -> tmax a <= tmax b ->
+  in_rangeb b x = false -> in_rangeb a x = false.
+Proof. unfold in_rangeb. intros _ _ H1 H2. lia. Qed.
+
+(* when neither int64 nor (for a non-negative value of an unsigned type) uint64 holds the value,
+   the fallback type is returned *)
+Lemma pfv_fallback t v : wf_ity t -> in_rangeb t v = false ->
+  in_rangeb (if negb (sgn t) && (0 <=? v) then U64 else I64) v = false ->
+  promote_type_for_value t v = if negb (sgn t) && (0 <=? v) then U64 else I64.
+Proof.
+  intros Ht Hr Hf. unfold promote_type_for_value. rewrite Hr.
+  destruct (negb (sgn t) && (0 <=? v)); cbv [promote_signed_types promote_unsigned_types first_fit].
+  - assert (E8 : in_rangeb U8 v = false) by (apply (in_rangeb_sub U8 U64); [reflexivity | reflexivity | vm_compute; congruence | vm_compute; congruence | exact Hf]).
+    assert (E16 : in_rangeb U16 v = false) by (apply (in_rangeb_sub U16 U64); [reflexivity | reflexivity | vm_compute; congruence | vm_compute; congruence | exact Hf]).
+    assert (E32 : in_rangeb U32 v = false) by (apply (in_rangeb_sub U32 U64); [reflexivity | reflexivity | vm_compute; congruence | vm_compute; congruence | exact Hf]).
+    rewrite E8, E16, E32, Hf, !Bool.andb_false_r. reflexivity.
+  - assert (E8 : in_rangeb I8 v = false) by (apply (in_rangeb_sub I8 I64); [reflexivity | reflexivity | vm_compute; congruence | vm_compute; congruence | exact Hf]).
+    assert (E16 : in_rangeb I16 v = false) by (apply (in_rangeb_sub I16 I64); [reflexivity | reflexivity | vm_compute; congruence | vm_compute; congruence | exact Hf]).
+    assert (E32 : in_rangeb I32 v = false) by (apply (in_rangeb_sub I32 I64); [reflexivity | reflexivity | vm_compute; congruence | vm_compute; congruence | exact Hf]).
+    rewrite E8, E16, E32, Hf, !Bool.andb_false_r. reflexivity.
+Qed.
+
 Lemma fold_value_agrees T X : wf_ity T -> result_bound T X ->
   let t' := promote_type_for_value T X in
   let v := wrap_value t' X in
   wf_ity t' /\ in_range t' v /\ (in_range T X -> v = X) /\ (~ in_range T X -> v = X \/ wrap T X = v).
 Proof.
-  intros HT. unfold result_bound, promote_type_for_value, wrap_value, bwrap.
-  ity_cases T HT; cbv [promote_signed_types promote_unsigned_types first_fit]; ity_norm; intros HX;
-    repeat (match goal with |- context [if ?c then _ else _] => destruct c eqn:? end; try (exfalso; lia));
-    ity_norm; repeat split; intros; first [reflexivity | lia | (left; lia) | (right; lia)].
+  intros HT HB. cbv zeta. pose proof (pfv_wf T X HT) as Hw.
+  rewrite wrap_value_correct by exact Hw.
+  split; [exact Hw|]. split; [apply wrap_range; exact Hw|]. split.
+  - intros Hin. unfold promote_type_for_value. apply in_rangeb_spec in Hin. rewrite Hin.
+    apply wrap_id; [exact HT | apply in_rangeb_spec; exact Hin].
+  - intros Hn. apply in_rangeb_false in Hn.
+    destruct (in_rangeb (if negb (sgn T) && (0 <=? X) then U64 else I64) X) eqn:F.
+    + (* some 64 bit type holds X: the ladder finds a type that does *)
+      left. apply wrap_id; [exact Hw|]. apply promote_fits; [exact HT|].
+      destruct (sgn T) eqn:S; cbn [negb andb] in F.
+      * left. apply in_rangeb_spec. exact F.
+      * destruct (0 <=? X) eqn:P; cbn [andb] in F.
+        -- right. split; [reflexivity|]. split; [lia|]. apply in_rangeb_spec. exact F.
+        -- left. apply in_rangeb_spec. exact F.
+    + right. rewrite (pfv_fallback T X HT Hn F).
+      (* X is beyond 64 bits: only possible for a 64 bit T, and then both reductions coincide *)
+      revert HB Hn F. unfold result_bound.
+      ity_cases T HT; ity_norm; intros HB Hn F;
+        repeat match goal with |- context [if ?c then _ else _] => destruct c eqn:? end; ity_norm; lia.
 Qed.
 
 Lemma arith_result_bound o T a b e : wf_ity T -> (o = Badd \/ o = Bsub \/ o = Bmul) ->
